@@ -37,6 +37,12 @@ theorem roots_present : (Gen.goroutines.filter isConnRoot).length = 4 := by deci
 /-- no `panic`, `os.Exit`, `log.Fatal*` in the service packages -/
 theorem no_exit_calls : Gen.exitCalls.length = 0 := by decide
 
+/-- every loop that takes connections off a listener (IMAP 143 and 993 in cmd/server, LMTP, SASL) goes round again after a
+failed `Accept` — out of descriptors, a connection reset before it was accepted — and leaves only through the service's own
+shutdown channel: one failed accept does not end the service (regenerated from /repo on every run). -/
+theorem accept_loops_persist :
+    Gen.acceptLoops.length = 4 ∧ Gen.acceptLoops.all (fun a => !a.leavesOnError && a.continues) = true := by decide
+
 /-! ### what a recover at the root buys (Go's semantics of panic / recover, stated as a model: trusted) -/
 structure G where
   id : Nat
